@@ -117,12 +117,14 @@ impl ValueVector {
 
     /// Sets the value at index to null.
     pub fn set_null(&mut self, index: usize) {
-        if self.validity.is_none() {
-            self.validity = Some(vec![true; self.len]);
+        let len = self.len;
+        let validity = self.validity.get_or_insert_with(|| vec![true; len]);
+        // The bitmap is created at the length the vector had at its first null;
+        // values pushed since then are valid until marked otherwise.
+        if validity.len() < len {
+            validity.resize(len, true);
         }
-        if let Some(validity) = &mut self.validity
-            && index < validity.len()
-        {
+        if index < validity.len() {
             validity[index] = false;
         }
     }
